@@ -144,6 +144,18 @@ type position struct {
 
 func exactWant(eff string) []lit { return []lit{{Val: eff}} }
 
+// anchoredWant: the label-index planners (planner_stream_select.go, prof/transpiler/planner_selector.go) render the pattern of
+// a =~ / !~ stream or series MATCHER wrapped as ^(?:<pattern>)$ (match() alone is an unanchored search)
+func anchoredWant(eff string) []lit { return []lit{{Val: "^(?:" + eff + ")$"}} }
+
+// matcherWant gives the literal a label matcher with operator op (the suffix of a position name) renders
+func matcherWant(op string) func(string) []lit {
+	if strings.HasSuffix(op, "=~") || strings.HasSuffix(op, "!~") {
+		return anchoredWant
+	}
+	return exactWant
+}
+
 const marker = "Zq7Zq"
 
 type tokInfo struct {
